@@ -8,7 +8,7 @@
     values), every combination of options, every grace period and interval, every fault plan and
     cancellation point, every clock. [file s k] is the value of the terminal key k.
     [jt o clk s0 k] = deleting k is justified at one of the readings: exists i, justified o (clk i) s0 k. *)
-From CM Require Import Lib.Str Lib.CleanSyntax Gen.Consts Clean.Model Clean.Proofs Clean.Prog Clean.Check Clean.SpecProofs Clean.Concurrent Clean.Interfere Clean.Effective Clean.EffectiveCerts Clean.Kill Clean.InterfereSeq Clean.ConcurrentKill Clean.ConcurrentForeign Clean.Final Clean.Final2 Clean.Final3.
+From CM Require Import Lib.Str Lib.CleanSyntax Gen.Consts Clean.Model Clean.Proofs Clean.Prog Clean.Check Clean.SpecProofs Clean.Concurrent Clean.Interfere Clean.Effective Clean.EffectiveCerts Clean.Kill Clean.InterfereSeq Clean.ConcurrentKill Clean.ConcurrentForeign Clean.Final Clean.Final2 Clean.Final3 Clean.Final4.
 From Coq Require Import String Ascii.
 Open Scope Z_scope.
 
@@ -582,6 +582,30 @@ Theorem C18_next_cleaning_finishes_what_is_left : forall e1 n o1 clk1 e2 o2 clk2
   forall k, covers x k = true -> lookup (sto (snd (clean e2 o2 clk2 s1))) k = None.
 Proof. exact next_cleaning_finishes_what_is_left. Qed.
 Print Assumptions C18_next_cleaning_finishes_what_is_left.
+
+(** "records when it ran" in the form the monitor uses it: a cleaning whose call log shows a SUCCESSFUL Store of the record leaves
+    the record (a reading of its clock, its instance) in the storage; one that issued no Store leaves the record alone *)
+Theorem C18_successful_store_leaves_the_record : forall e clk o s0,
+  stored_ok (lg (snd (clean e o clk s0))) = true ->
+  exists i, lookup (sto (snd (clean e o clk s0))) spec_last_clean = Some (written (clk i) o).
+Proof. exact stored_ok_written. Qed.
+Print Assumptions C18_successful_store_leaves_the_record.
+Theorem C18_no_store_leaves_the_record_alone : forall e o clk s0,
+  stored_any (lg (snd (clean e o clk s0))) = false ->
+  lookup (sto (snd (clean e o clk s0))) spec_last_clean = lookup s0 spec_last_clean.
+Proof. exact no_store_record_untouched. Qed.
+Print Assumptions C18_no_store_leaves_the_record_alone.
+
+(** the history form of the last sentence of the property as the monitor evaluates it ([runs_ok]: per run in lock order, carrying
+    along a lower bound of the recorded time -- the start of the bracket of the last run with a successful Store; nothing once a
+    Store reported an error, since it may or may not have taken effect): it holds of the model for any two cleanings one after
+    the other, each with its own options, fault plan and clock within its bracket *)
+Theorem C18_two_cleanings_satisfy_the_run_clauses : forall e1 o1 clk1 a0 a1 e2 o2 clk2 b0 b1 s0,
+  (forall i, a0 <= clk1 i <= a1) -> (forall i, b0 <= clk2 i <= b1) ->
+  runs_ok (seq2_case e1 o1 clk1 a0 a1 e2 o2 clk2 b0 b1 s0) (c_runs (seq2_case e1 o1 clk1 a0 a1 e2 o2 clk2 b0 b1 s0))
+          (rec0 (c_s0 (seq2_case e1 o1 clk1 a0 a1 e2 o2 clk2 b0 b1 s0))) = true.
+Proof. exact seq2_runs_ok. Qed.
+Print Assumptions C18_two_cleanings_satisfy_the_run_clauses.
 
 (** ** who cleans, read from the source on every run: nothing inside the package calls CleanStorage (there is no
     timer path in certmagic itself -- [Cache.maintainAssets] renews and staples only; the application, e.g. Caddy's
@@ -1177,3 +1201,9 @@ Example ex_next_cleaning_finishes :
   file s1 (s2k "certificates/iss/dead.example/dead.example.crt") = Some (3, crt (T - 31 * day)) /\
   lookup (sto (snd (clean ex_env ex_opts_ni (at_ T) s1))) (s2k "certificates/iss/dead.example/dead.example.key") = None.
 Proof. vm_compute. repeat split; reflexivity. Qed.
+
+(** hypotheses of C18_two_cleanings_satisfy_the_run_clauses / C18_successful_store_leaves_the_record on the example storage: the first cleaning stores the record successfully; both clocks lie in their brackets *)
+Example ex_two_cleanings :
+  stored_ok (lg (snd (clean ex_env ex_opts (at_ T) ex_store2))) = true /\
+  (forall i, T <= at_ T i <= T) /\ (forall i, T + second <= at_ (T + second) i <= T + second).
+Proof. split; [vm_compute; reflexivity|]. split; intros i; unfold at_; lia. Qed.
